@@ -203,11 +203,9 @@ impl<'a> Reader<'a> {
         // changed since this log, in which case we just ignore it.
         //
         // It's possible we log a build that generates files A B, then
-        // change the build file such that it only generates file A; this
-        // logic will still attach the old dependencies to A, but it
-        // shouldn't matter because the changed command line will cause us
-        // to rebuild A regardless, and these dependencies are only used
-        // to affect dirty checking, not build order.
+        // change the build file such that it only generates file A; such a
+        // record is ignored too, so that it cannot override a record that
+        // was logged for the build generating just A.
 
         let mut unique_bid = None;
         let mut obsolete = false;
@@ -220,6 +218,7 @@ impl<'a> Reader<'a> {
             }
             match self.graph.file(self.ids.fileids[fileid]).input {
                 None => {
+                    unique_bid = None;
                     obsolete = true;
                 }
                 Some(bid) => {
